@@ -146,7 +146,7 @@ def check_h2c_upgrades(ctx):
     except Exception as ex:
         ctx.note("HTTP family not available: %s" % ex)
         return
-    cases = [(c, m) for c, m in C04.gen_cases(ctx) if m.get("mode") == "h2c"]
+    cases = [(c, m) for c, m in C04.gen_cases(ctx) if m.get("mode") == "h2c" or m.get("kind") == "rst-after-complete"]
     runs = []
     for c, m in cases:
         for first in ("c", "s"):
@@ -164,10 +164,12 @@ def check_h2c_upgrades(ctx):
             return
         # pairing only: how exactly a paired stream's fields are reported is property C04's business
         devs = [d for d in C04.evaluate(c, m, r) if not d[1].startswith("stream ")]
-        ctx.count_case(("h2c-upgrade", json.dumps(c, sort_keys=True)[:3000]), True, "h2c-upgrade-%d-before" % len(m.get("pre") or []))
+        ctx.count_case(("h2c-upgrade", json.dumps(c, sort_keys=True)[:3000]), True,
+                       "h2c-upgrade-%d-before" % len(m.get("pre") or []) if m.get("mode") == "h2c" else "h2-" + m.get("kind", "?"))
         if devs and reported < 2:
             reported += 1
-            ctx.violation({"kind": "h2c-upgrade", "first_half": c["first"], "exchanges_before_upgrade": len(m.get("pre") or []),
+            ctx.violation({"kind": "h2c-upgrade" if m.get("mode") == "h2c" else "h2-" + m.get("kind", "?"), "first_half": c["first"],
+                           "exchanges_before_upgrade": len(m.get("pre") or []),
                            "why": [d[1] for d in devs][:6], "case": c, "how": "vh-http run (case on stdin)"})
 
 
